@@ -18,20 +18,28 @@ from fv.report import Report
 
 
 def _check_effect_family(args):
-    case, seed, gshape = args
-    rng = random.Random((seed * 40503 + hash(repr(case["terms"])) + (5 if case["icpt"] else 0) + hash(gshape)) & 0xFFFFFFFF)
+    case, seed, gshape, render, atoms = args
+    rng = random.Random((seed * 40503 + hash(repr(case["terms"])) + (5 if case["icpt"] else 0) + hash(gshape) + hash(render) + hash(atoms)) & 0xFFFFFFFF)
     terms = [list(t) for t in case["terms"]]
     eff_factors = sorted({f for t in terms for f in t})
     gvars = {"g": ["g"], "g:k": ["g", "k"], "C(g)": ["g"]}[gshape]
     factors = sorted(set(eff_factors) | set(gvars))
     numeric_parts = {tuple(sorted(f for f in t if f not in c03.CAT)) for t in terms}
-    total_w = sum(1 for part in numeric_parts if part)
+    wr = {"x": "bs(x, df=3)"} if atoms == "spline" else {}
+    xw = 3 if atoms == "spline" else 1
+    total_w = sum(xw for part in numeric_parts if part)
     df, nlev = c03.make_data(rng, factors, total_w)
-    eff_txt = ("" if case["icpt"] else "0 + ") + " + ".join(":".join(t) for t in terms)
     gtxt = {"g": "g", "g:k": "g:k", "C(g)": "C(g)"}[gshape]
-    text = f"y ~ ({eff_txt} | {gtxt})"
+    tt = [":".join(wr.get(f, f) for f in t) for t in terms]
+    if render == "joint":
+        text = "y ~ (" + ("" if case["icpt"] else "0 + ") + " + ".join(tt) + f" | {gtxt})"
+    else:
+        # the same family written as separate group terms, in random order (the group intercept need not come first)
+        parts = [f"(0 + {t} | {gtxt})" for t in tt] + ([f"(1 | {gtxt})"] if case["icpt"] else [])
+        rng.shuffle(parts)
+        text = "y ~ " + " + ".join(parts)
     st, dm = design.build(text, df)
-    base = {"formula": text, "levels": nlev, "n": len(df)}
+    base = {"formula": text, "levels": nlev, "n": len(df), "render": render, "atoms": atoms}
     kf = {"effect_family_exact_under_simple_rule": bool(case.get("simple_rule_exact"))}
     if st != "ok":
         return ({"clause": "exception_on_buildable_effect_family", "exc": type(dm).__name__, **kf}, dict(base, error=str(dm)[:160])), "exc"
@@ -40,17 +48,49 @@ def _check_effect_family(args):
     base.update(ncol=int(x.shape[1]), nlabels=int(nlabels))
     if nlabels != x.shape[1]:
         return ({"clause": "labels_and_columns_differ_in_number", **kf}, base), "bad"
-    if not rank.is_int_matrix(x):
-        return None, "skip"
-    xi = np.round(x).astype(np.int64)
-    numcols = {v: np.asarray(df[v], dtype=np.int64).reshape(-1, 1) for v in ("x", "z")}
-    b_eff = c03.indicator_basis(df, terms, case["icpt"], nlev, numcols)
     cells = sorted(set(zip(*[df[v] for v in gvars])))
-    gi = np.array([[1 if tuple(df[v].iloc[r] for v in gvars) == c else 0 for c in cells] for r in range(len(df))], dtype=np.int64)
-    b = np.einsum("ij,ik->ijk", gi, b_eff).reshape(len(df), -1)
-    rx, rb = rank.rank_int(xi), rank.rank_int(b)
-    rxb = rank.rank_int(np.column_stack([xi, b]))
-    want = len(cells) * c03.dim_of(case["atoms"], nlev, {"x": 1, "z": 1})
+    gidx = [cells.index(tuple(df[v].iloc[r] for v in gvars)) for r in range(len(df))]
+    # block structure of every term: a row is non-zero only in the slots of its own group, the blocks tile the matrix
+    covered = 0
+    for name, sl in dm.group.slices.items():
+        z = np.asarray(dm.group[name], dtype=float)
+        covered += z.shape[1]
+        if z.shape[1] % len(cells) != 0:
+            return ({"clause": "term_block_is_not_groups_times_effect_columns", **kf}, dict(base, term=name, width=int(z.shape[1]), groups=len(cells))), "bad"
+        wd = z.shape[1] // len(cells)
+        for r in range(len(df)):
+            row = z[r].copy()
+            row[gidx[r] * wd : (gidx[r] + 1) * wd] = 0
+            if np.any(row != 0):
+                return ({"clause": "row_non_zero_outside_its_group", **kf}, dict(base, term=name, row=r)), "bad"
+    if covered != x.shape[1]:
+        return ({"clause": "term_blocks_do_not_tile_group_matrix", **kf}, dict(base, covered=int(covered))), "bad"
+    numcols = {v: np.asarray(df[v], dtype=np.int64).reshape(-1, 1) for v in ("x", "z")}
+    if atoms == "spline" and any("x" in t for t in terms):
+        val = None
+        for tm in dm.group.terms.values():
+            for c in getattr(tm.expr, "components", []):
+                if str(c.name) == wr["x"]:
+                    val = np.asarray(c.value, dtype=float).reshape(len(df), -1)
+        if val is None:
+            return None, "skip"
+        numcols["x"] = val
+    gi = np.array([[1 if gidx[r] == c else 0 for c in range(len(cells))] for r in range(len(df))], dtype=np.int64)
+    want = len(cells) * c03.dim_of(case["atoms"], nlev, {"x": xw, "z": 1})
+    if rank.is_int_matrix(x) and atoms != "spline":
+        xi = np.round(x).astype(np.int64)
+        b_eff = c03.indicator_basis(df, terms, case["icpt"], nlev, numcols)
+        b = np.einsum("ij,ik->ijk", gi, b_eff).reshape(len(df), -1)
+        rx, rb = rank.rank_int(xi), rank.rank_int(b)
+        rxb = rank.rank_int(np.column_stack([xi, b]))
+    else:
+        b_eff = c03.indicator_basis(df, terms, case["icpt"], nlev, {v: np.asarray(c, dtype=float) for v, c in numcols.items()}).astype(float)
+        b = np.einsum("ij,ik->ijk", gi.astype(float), b_eff).reshape(len(df), -1)
+        rx, c1 = rank.rank_float(x)
+        rb, c2 = rank.rank_float(b)
+        rxb, c3 = rank.rank_float(np.column_stack([x, b]))
+        if not (c1 and c2 and c3):
+            return None, "skip"
     base.update(rank=int(rx), rank_basis=int(rb), rank_joint=int(rxb), dim_abs=int(want))
     if rb != want:
         return ({"clause": "HARNESS_atom_dimension_mismatch"}, base), "harness"
@@ -68,11 +108,13 @@ def effect_families(rep, seed, sample, gshapes):
     if sample and len(cases) > sample:
         cases = rng.sample(cases, sample)
         rep.notes["effect_families_sampled"] = True
-    jobs = [(c, seed, g) for c in cases for g in gshapes]
+    jobs = [(c, seed, g, "joint", "plain") for c in cases for g in gshapes]
+    jobs += [(c, seed, "g", "split", "plain") for c in cases]
+    jobs += [(c, seed, "g", "joint", "spline") for c in cases if any("x" in t for t in c["terms"])]
     results = common.pool_map(_check_effect_family, jobs)
-    for (c, _, g), (prob, kind) in zip(jobs, results):
+    for (c, _, g, rd, at), (prob, kind) in zip(jobs, results):
         rep.cov["evaluations"] += 1
-        rep.nontrivial_key("E:" + repr(c["terms"]) + str(c["icpt"]) + g)
+        rep.nontrivial_key("E:" + repr(c["terms"]) + str(c["icpt"]) + g + rd + at)
         if prob is not None:
             sig, case = prob
             if sig["clause"].startswith("HARNESS"):
